@@ -672,7 +672,9 @@ class MockCA:
         else:
             nonce = nonce_mode
         arec.update({"status": status, "nonce": nonce, "location": ans.get("location"),
-                     "body_class": ans.get("body_class"), "len": len(data)})
+                     "body_class": ans.get("body_class"), "len": len(data),
+                     "body_text": data.decode(errors="replace") if len(data) < 100000 else None,
+                     "ctype": ctype})
         if isinstance(body, dict) and "type" in body and str(body.get("type", "")).startswith(ERR):
             arec["problem"] = body["type"][len(ERR):]
         self.ev(**arec)
